@@ -37,6 +37,9 @@ def canonical(rnd, sign, cal=True, time=True):
 
 
 def drive(ctx):
+    from .. import gr
+
+    gr.replay(ctx)          # behaviours of the Session state machine, real objects threaded
     q = ctx.quick()
     rnd = ctx.rnd
     n = 0
